@@ -951,6 +951,7 @@ func (model *mnode) apply(op Op, chunk int, cidV1 bool) (o outcome) {
 		switch {
 		case samePath && overwrite:
 			o.want = true // a file moved onto its own path: nothing changes
+			o.mvOver = effDst
 			cls("mv:onto-itself")
 		case !overwrite && dstParent.kids[dstName] != nil:
 			// target name taken inside the destination directory
@@ -1443,7 +1444,7 @@ func describe(op Op) string {
 var spec = kit.Spec[Case]{
 	Prop: "C19", Name: "main",
 	Rule:  "op list (<=30 + mkdir -p prologue) over paths {a,b,x}/{a,b,x}/{a,b,x,f,g}: mkdir(+-parents), PutNode, create/write/truncate through descriptors, Mv, Unlink, Chmod, Touch, Flush/FlushPath, Lookup/List/read, reopen from the flushed root; root options maxLinks 2-4 / HAMT size 100-300 / fanout 8-16 / chunker size-16..64 / CIDv0|v1; compared op by op with a tree model and, after Flush, through uio.Directory/DagReader; non-trivial = a successful-precondition Mv between distinct parents with equal names and equal entry name, or a HAMT-sharded directory in a flushed DAG",
-	Quick: 600, Thorough: 1300,
+	Quick: 600, Thorough: 4000,
 	Gen: gen, Run: run,
 	Sample: func(c Case) any {
 		var ops []string
